@@ -33,7 +33,7 @@ EXPLANATION = (
 NOT_DECIDED = ["floating-point agreement with the closed forms", "np.linalg.eigvalsh / np.histogram internals", "nematic order parameter, dipole moments, dielectric constant, isothermal compressibility, inertia tensor",
                "the numerical values of the published Karplus coefficients"]
 ASSUMPTIONS = ["np.linalg.eigvalsh returns eigenvalues in ascending order", "1 amu / nm^3 = 1.66053907 kg / m^3"]
-FLOORS = {"C16-R1": 8, "C16-R2": 7, "C16-R3": 6, "C16-R4": 6, "C16-R5": 12, "C16-R6": 5, "C16-R7": 8, "C16-R8": 9}
+FLOORS = {"C16-R1": 8, "C16-R2": 7, "C16-R3": 6, "C16-R4": 5, "C16-R5": 12, "C16-R6": 5, "C16-R7": 8, "C16-R8": 9, "C16-R9": 4}
 
 MOM = "mdtraj/geometry/src/moments.cpp"
 DRIDC = "mdtraj/geometry/src/dridkernels.cpp"
@@ -67,11 +67,15 @@ def check(ctx):
     r1(ctx)
     r2(ctx)
     r3(ctx)
-    r4(ctx)
     r5(ctx)
     r6(ctx)
     r7(ctx)
     r8(ctx)
+    ctx.rule("C16-R9", "inertia tensor I = sum_a m_a (|r_a|^2 1 - r_a r_a^T) about the centre of mass (both implementations); Q = 1/(2N) sum_j (3 e_j e_j^T - 1) over normalised directors; "
+                       "nematic order = largest eigenvalue of Q")
+    r_tensor(ctx)
+    from .c05 import no_foreign_attribute_stores
+    no_foreign_attribute_stores(ctx, "C16-R5", [CONTACT, SHAPE, ORDER, RG, THERMO, RDF, NMR], floor=20)
 
 
 # ---------------------------------------------------------------------------------------------------
@@ -189,14 +193,7 @@ def r2(ctx):
 # ---------------------------------------------------------------------------------------------------
 def r3(ctx):
     ctx.analysed_files.add(SHAPE)
-    fn = ctx.py.func(SHAPE, "compute_gyration_tensor")
-    s = _n(src(fn)).replace('"', "'")
-    ok = "xyz=traj.xyz-center_of_geom" in s and "returnnp.einsum('...ji,...jk->...ik',xyz,xyz)/traj.n_atoms" in s and "center_of_geom=np.expand_dims(compute_center_of_geometry(traj),axis=1)" in s
-    ctx.decide(ok, "C16-R3", fn, SHAPE, "compute_gyration_tensor", "S_ik = (1/N) sum_j (r_j - c)_i (r_j - c)_k with c the centre of geometry", "", "gyration tensor is computed as %s" % src(fn.body[-1])[:100])
-    pm = ctx.py.func(SHAPE, "principal_moments")
-    s = _n(src(pm))
-    ok = "gyration_tensor=compute_gyration_tensor(traj)" in s and "returnnp.linalg.eigvalsh(gyration_tensor)" in s
-    ctx.decide(ok, "C16-R3", pm, SHAPE, "principal_moments", "eigenvalues of the gyration tensor (ascending)", "", "principal moments are %s" % src(pm.body[-1])[:80])
+    fn = ctx.py.func(SHAPE, "compute_gyration_tensor")      # the tensor itself and principal_moments: r_tensor()
     p = [sym("p0"), sym("p1"), sym("p2")]
     want = {"asphericity": p[2] - (p[0] + p[1]) / 2, "acylindricity": p[1] - p[0],
             "relative_shape_anisotropy": Rat(Poly.const(3)) / 2 * (p[0] * p[0] + p[1] * p[1] + p[2] * p[2]) / ((p[0] + p[1] + p[2]) * (p[0] + p[1] + p[2])) - Rat(Poly.const(1)) / 2}
@@ -216,36 +213,6 @@ def r3(ctx):
                    "%s evaluates %r; the definition is %r" % (q, got, w))
     al = ctx.py.mod(SHAPE).module_assign("relative_shape_antisotropy")
     ctx.decide(al is not None and src(al) == "relative_shape_anisotropy", "C16-R3", al or fn, SHAPE, "relative_shape_antisotropy", "alias of relative_shape_anisotropy", "", "the legacy alias points elsewhere")
-
-
-# ---------------------------------------------------------------------------------------------------
-def r4(ctx):
-    ctx.analysed_files.add(DIST)
-    cg = ctx.py.func(DIST, "compute_center_of_geometry")
-    s = _n(src(cg))
-    ok = ("x.astype('float64').T.mean(axis=1)" in s.replace('"', "'")) or "mean(axis=1)" in s or "x.mean(0)" in s
-    ctx.decide(ok and "enumerate(traj.xyz)" in s, "C16-R4", cg, DIST, "compute_center_of_geometry", "centre[i] = mean over the atoms of frame i", "", "centre of geometry is %s" % s[-120:])
-    cm = ctx.py.func(DIST, "compute_center_of_mass")
-    s = _n(src(cm)).replace('"', "'")
-    norm = [n for n in ast.walk(cm) if isinstance(n, ast.AugAssign) and dotted(n.target) == "masses" and isinstance(n.op, ast.Div) and _n(src(n.value)) == "masses.sum()"]
-    ok = len(norm) == 2 and "com[i,:]=x.astype('float64').T.dot(masses)" in s
-    ctx.decide(ok, "C16-R4", cm, DIST, "compute_center_of_mass", "com[i] = sum_j (m_j / sum m) r_ij (both branches normalise)", "", "centre of mass: %d normalisations, accumulation `%s`" % (len(norm), s[-80:]))
-    ok = "masses=np.array([a.element.massforaintraj.top.atoms])" in s and "masses=np.array([traj.top.atom(i).element.massforiinatoms_of_interest])" in s and "xyz=traj.xyz[:,atoms_of_interest]" in s
-    ctx.decide(ok, "C16-R4", cm, DIST, "compute_center_of_mass", "masses and coordinates are taken for the same atoms", "", "mass / coordinate selection changed")
-    # radius of gyration
-    ctx.analysed_files.add(RG)
-    rg = ctx.py.func(RG, "_compute_rg_xyz")
-    s = _n(src(rg))
-    ok = "weights=masses/masses.sum()" in s and "squared_dists=(centered**2).sum(2)" in s and "Rg=(squared_dists*weights).sum(1)**0.5" in s
-    ctx.decide(ok, "C16-R4", rg, RG, "_compute_rg_xyz", "Rg = sqrt(sum_i w_i |centered_i|^2), w = m / sum m", "", "Rg formula changed")
-    mu = [n for n in walk_no_nested(rg) if isinstance(n, ast.Assign) and dotted(n.targets[0]) == "mu"]
-    weighted = bool(mu) and ("weights" in src(mu[0].value) or "masses" in src(mu[0].value) or "average" in src(mu[0].value))
-    ctx.decide(weighted, "C16-R4", mu[0] if mu else rg, RG, "_compute_rg_xyz", "the centre subtracted is the weighted mean that belongs to the weights", "",
-               "the coordinates are centred on `%s` (unweighted) while the squared distances are weighted by mass: with unequal masses this is not the mass-weighted radius of gyration "
-               "(sum_i w_i |r_i - r_com|^2); it exceeds it by |r_com - r_geom|^2" % (src(mu[0].value) if mu else None))
-    cen = [n for n in walk_no_nested(rg) if isinstance(n, ast.Assign) and dotted(n.targets[0]) == "centered"]
-    ok = bool(cen) and _n(src(cen[0].value)) in ("(xyz.transpose((1,0,2))-mu).transpose((1,0,2))", "xyz-mu[:,None,:]", "xyz-mu[:,np.newaxis,:]")
-    ctx.decide(ok, "C16-R4", cen[0] if cen else rg, RG, "_compute_rg_xyz", "centered = xyz - mu (per frame)", "", "centring is %s" % (src(cen[0].value) if cen else None))
 
 
 # ---------------------------------------------------------------------------------------------------
@@ -369,24 +336,10 @@ def r9_dipole(ctx):
     ok = len(calls) == 2 and all(p is not None and const(p) is True for p in per)
     ctx.decide(ok, "C16-R6", calls[0] if calls else fn, THERMO, "dipole_moments", "both displacement legs are minimum-image (periodic=True)", "",
                "the displacement legs use periodic=%s: a charged residue beyond half a box length from atom 0 contributes a dipole that changes under a lattice translation" % [src(p) if p is not None else None for p in per])
-    s = _n(src(fn))
-    ok = "xyz=local_displacements+molecule_displacements" in s and ("moments=xyz.transpose(0,2,1).dot(charges)" in s or "dot(charges)" in s)
-    ctx.decide(ok, "C16-R6", fn, THERMO, "dipole_moments", "moment = sum_i q_i (local + molecule displacement)", "", "dipole formula changed")
 
 
 def r6(ctx):
     r9_dipole(ctx)
-    ctx.analysed_files.add(THERMO)
-    fn = ctx.py.func(THERMO, "density")
-    conv = [n for n in walk_no_nested(fn) if isinstance(n, ast.Assign) and dotted(n.targets[0]) == "conversion"]
-    v = const(conv[0].value) if conv else None
-    ctx.decide(isinstance(v, float) and abs(v - 1.66053907) < 1e-6, "C16-R6", conv[0] if conv else fn, THERMO, "density", "conversion = 1.660539 (amu/nm^3 -> kg/m^3)", "", "unit conversion constant is %r" % (v,))
-    s = _n(src(fn))
-    ok = "volume_trace=traj.unitcell_volumes" in s and "densities=mass/volume_trace" in s and "densities=densities*conversion" in s
-    ctx.decide(ok, "C16-R6", fn, THERMO, "density", "density = mass / cell volume * conversion", "", "density formula changed")
-    ok = bool(re.search(r"mass=sum\(\[?\(?(\w+)\.element\.massfor\1intraj\.top(ology)?\.atoms", s))
-    ok2 = "mass=sum(masses)" in s or "mass=np.sum(masses)" in s
-    ctx.decide(ok and ok2, "C16-R6", fn, THERMO, "density", "mass = sum of atomic masses (topology elements by default)", "", "total mass is computed differently")
 
 
 # ---------------------------------------------------------------------------------------------------
@@ -465,3 +418,197 @@ def r8(ctx):
         dflt = [a for a in f.args.defaults]
         ok = bool(dflt) and const(dflt[-1]) in [e[0] for e in entries]
         ctx.decide(ok, "C16-R8", f, NMR, q, "default model exists in the table", "", "default model %r is not in %s" % (const(dflt[-1]) if dflt else None, tab))
+
+
+# ===================================================================================================
+# Whole-array descriptors by value numbering on a generic instance of every axis (sa/tensym.py)
+# ===================================================================================================
+from ..tensym import TenSym, Ten, Obj, Unsupported as TUnsupported, ShapeError   # noqa: E402
+
+ORDER = "mdtraj/geometry/order.py"
+N_F, N_A = 2, 4          # frames, atoms: pairwise different from each other and from the 3 components
+
+
+def _model(ctx):
+    """traj with 2 frames x 4 atoms (two residues of two atoms), symbolic coordinates x[f,a,c], masses m[a], cell volumes V[f]"""
+    masses = [sym("m[%d]" % i) for i in range(N_A)]
+    atoms = [Obj(index=i, element=Obj(mass=masses[i])) for i in range(N_A)]
+    residues = [Obj(index=r, atoms=atoms[2 * r:2 * r + 2]) for r in range(N_A // 2)]
+    for r in residues:
+        r.atom = (lambda rr: (lambda i: rr.atoms[i]))(r)
+        for a in r.atoms:
+            a.residue = r
+    top = Obj(atoms=atoms, n_atoms=N_A, residues=residues, n_residues=len(residues))
+    top.atom = lambda i: atoms[i]
+    top.select = lambda s: [1, 3]
+    traj = Obj(xyz=Ten.sym("x", (N_F, N_A, 3)), n_frames=N_F, n_atoms=N_A, top=top, topology=top, unitcell_volumes=Ten.sym("V", (N_F,)))
+    return traj, masses
+
+
+def _funcs(ctx):
+    fs = {}
+    for rel, names in ((DIST, ["compute_center_of_mass", "compute_center_of_geometry"]), (SHAPE, ["compute_gyration_tensor", "principal_moments"]),
+                       (ORDER, ["compute_inertia_tensor", "_compute_Q_tensor", "_compute_inertia_tensor_slow"]), (RG, ["compute_rg", "_compute_rg_xyz"])):
+        for nm in names:
+            try:
+                fs[nm] = ctx.py.func(rel, nm)
+            except Exception:
+                pass
+    return fs
+
+
+def _x(f, a, c):
+    return sym("x[%d,%d,%d]" % (f, a, c))
+
+
+def _spec(shape, f):
+    import itertools
+    return Ten(shape, [f(*i) for i in itertools.product(*[range(s) for s in shape])])
+
+
+def _decide_tensor(ctx, rule, rel, q, what, given, want, atoms=None, funcs=None, models=None, post=None):
+    """Evaluate function q with `given` arguments and compare the result with the Ten / Rat `want`."""
+    fn = ctx.py.func(rel, q)
+    ctx.analysed_files.add(rel)
+    ctx.analysed_functions.add(rel + ":" + q)
+    ts = TenSym({}, funcs=funcs or {}, models=models or {})
+    try:
+        got = ts.run_fn(fn, **given)
+        if post is not None:
+            got, want = post(ts, got, want)
+    except ShapeError as e:
+        ctx.violated(rule, fn, rel, q, what, "on a trajectory of %d frames x %d atoms the array operations do not fit: %s" % (N_F, N_A, e))
+        return None
+    except (TUnsupported, PUnsupported, ZeroDivisionError, RecursionError) as e:
+        ctx.undecided(rule, fn, rel, q, what, "not evaluable: %s" % e)
+        return None
+    if got is None:
+        ctx.undecided(rule, fn, rel, q, what, "no value returned on the analysed path")
+        return None
+    try:
+        diff = ts.first_difference(got, want)
+    except (TUnsupported, PUnsupported) as e:
+        ctx.undecided(rule, fn, rel, q, what, "result not comparable: %s" % e)
+        return None
+    ctx.decide(diff is None, rule, fn, rel, q, what, "2 frames x 4 atoms x 3 components, all elements", "result differs from the definition: %s" % (diff or "")[:400])
+    return ts
+
+
+def r_tensor(ctx):
+    traj, masses = _model(ctx)
+    funcs = _funcs(ctx)
+    third = Rat(Poly.const(1)) / N_A
+    cog = _spec((N_F, 3), lambda f, c: sum((_x(f, a, c) for a in range(N_A)), Rat(Poly.const(0))) * third)
+    M = sum(masses, Rat(Poly.const(0)))
+    com = _spec((N_F, 3), lambda f, c: sum((masses[a] * _x(f, a, c) for a in range(N_A)), Rat(Poly.const(0))) / M)
+    # ---- R4 centres
+    _decide_tensor(ctx, "C16-R4", DIST, "compute_center_of_geometry", "centre[f] = (1/N) sum_a r[f,a]", {"traj": traj}, cog, funcs=funcs)
+    _decide_tensor(ctx, "C16-R4", DIST, "compute_center_of_mass", "com[f] = sum_a m_a r[f,a] / sum_a m_a (all atoms)", {"traj": traj}, com, funcs=funcs)
+    sel = [1, 3]
+    Ms = masses[1] + masses[3]
+    com_sel = _spec((N_F, 3), lambda f, c: (masses[1] * _x(f, 1, c) + masses[3] * _x(f, 3, c)) / Ms)
+    fn = ctx.py.func(DIST, "compute_center_of_mass")
+    if "select" in params(fn):
+        _decide_tensor(ctx, "C16-R4", DIST, "compute_center_of_mass", "with select=: masses and coordinates of the same selected atoms", {"traj": traj, "select": "sel"}, com_sel, funcs=funcs)
+    # ---- R4 radius of gyration
+    def rg_spec(w, centre):
+        return _spec((N_F,), lambda f: sum((w[a] * sum(((_x(f, a, c) - centre.at([f, c])) * (_x(f, a, c) - centre.at([f, c])) for c in range(3)), Rat(Poly.const(0))) for a in range(N_A)), Rat(Poly.const(0))))
+
+    def sq(ts, got, want):
+        got = ts.to_ten(got)
+        return got.map(lambda x: x * x), want
+    _decide_tensor(ctx, "C16-R4", RG, "compute_rg", "Rg^2 = (1/N) sum_a |r_a - centre of geometry|^2 (no masses)", {"traj": traj}, rg_spec([third] * N_A, cog), funcs=funcs, post=sq)
+    mt = Ten((N_A,), masses)
+    _decide_tensor(ctx, "C16-R4", RG, "compute_rg", "Rg^2 = sum_a w_a |r_a - centre of mass|^2, w = m / sum m", {"traj": traj, "masses": mt}, rg_spec([m / M for m in masses], com), funcs=funcs, post=sq)
+    # ---- R3 gyration tensor and principal moments
+    S = _spec((N_F, 3, 3), lambda f, i, k: sum(((_x(f, a, i) - cog.at([f, i])) * (_x(f, a, k) - cog.at([f, k])) for a in range(N_A)), Rat(Poly.const(0))) * third)
+    _decide_tensor(ctx, "C16-R3", SHAPE, "compute_gyration_tensor", "S[f,i,k] = (1/N) sum_a (r_a - c)_i (r_a - c)_k with c the centre of geometry", {"traj": traj}, S, funcs=funcs)
+    pm = ctx.py.func(SHAPE, "principal_moments")
+    ts = TenSym({}, funcs=funcs)
+    try:
+        got = ts.run_fn(pm, traj=traj)
+        ev = [c for c in ts.calls if c[0] == "eigvalsh"]
+        ok = len(ev) == 1 and ts.first_difference(ev[0][1][0], S) is None and got is ev[0][2]
+        ctx.decide(ok, "C16-R3", pm, SHAPE, "principal_moments", "eigvalsh (ascending eigenvalues) of the gyration tensor, returned unchanged", "",
+                   "principal_moments does not return np.linalg.eigvalsh(gyration tensor): %s" % ([c[0] for c in ts.calls],))
+    except ShapeError as e:
+        ctx.violated("C16-R3", pm, SHAPE, "principal_moments", "eigenvalues of the gyration tensor", "the array operations behind principal_moments do not fit on %d frames x %d atoms: %s" % (N_F, N_A, e))
+    except (TUnsupported, PUnsupported) as e:
+        ctx.undecided("C16-R3", pm, SHAPE, "principal_moments", "eigenvalues of the gyration tensor", "not evaluable: %s" % e)
+    # ---- R9 inertia tensor (both implementations) and Q tensor
+    def inertia(f, i, k):
+        tot = Rat(Poly.const(0))
+        for a in range(N_A):
+            r = [_x(f, a, c) - com.at([f, c]) for c in range(3)]
+            r2 = r[0] * r[0] + r[1] * r[1] + r[2] * r[2]
+            tot = tot + masses[a] * ((r2 if i == k else Rat(Poly.const(0))) - r[i] * r[k])
+        return tot
+    I = _spec((N_F, 3, 3), inertia)
+    _decide_tensor(ctx, "C16-R9", ORDER, "compute_inertia_tensor", "I[f,i,k] = sum_a m_a (|r_a|^2 delta_ik - r_a,i r_a,k), r relative to the centre of mass", {"traj": traj}, I, funcs=funcs)
+    if "_compute_inertia_tensor_slow" in funcs:
+        _decide_tensor(ctx, "C16-R9", ORDER, "_compute_inertia_tensor_slow", "reference implementation gives the same tensor", {"traj": traj}, I, funcs=funcs)
+    n_c = 5
+    e = Ten.sym("e", (N_F, n_c, 3))
+
+    def qspec(ts):
+        def q(f, i, k):
+            tot = Rat(Poly.const(0))
+            for j in range(n_c):
+                nrm = ts.fn("sqrt", sum((e.at([f, j, c]) * e.at([f, j, c]) for c in range(3)), Rat(Poly.const(0))))      # |e_j|, the evaluator's own symbol for it
+                tot = tot + (3 * e.at([f, j, i]) * e.at([f, j, k]) / (nrm * nrm) - (1 if i == k else 0))
+            return tot / (2 * n_c)
+        return _spec((N_F, 3, 3), q)
+    _decide_tensor(ctx, "C16-R9", ORDER, "_compute_Q_tensor", "Q[f,i,k] = 1/(2N) sum_j (3 e_ji e_jk / |e_j|^2 - delta_ik)", {"all_directors": e}, None, funcs=dict(funcs, ensure_type=None) if False else funcs,
+                   post=lambda ts, got, want: (got, qspec(ts)))
+    # nematic order: largest eigenvalue of Q
+    no = ctx.py.func(ORDER, "compute_nematic_order")
+    dirs = Ten.sym("d", (N_F, n_c, 3))
+    models = {"compute_directors": lambda ev_, call: dirs}
+    ts = TenSym({}, funcs=funcs, models=models)
+    try:
+        got = ts.run_fn(no, traj=traj)
+        ts2 = TenSym({}, funcs=funcs)
+        qd = ts2.run_fn(funcs["_compute_Q_tensor"], all_directors=dirs)
+        ev = [c for c in ts.calls if c[0] in ("eigvals", "eigvalsh")]
+        mx = [c for c in ts.calls if c[0] == "max"]
+        ok = len(ev) == 1 and ts.first_difference(ev[0][1][0], qd) is None and len(mx) == 1 and mx[0][1][0] is ev[0][2] and mx[0][1][1] in (1, -1) and got is mx[0][2]
+        ctx.decide(ok, "C16-R9", no, ORDER, "compute_nematic_order", "S2[f] = largest eigenvalue of Q[f] built from the directors of the requested compounds", "",
+                   "compute_nematic_order is not max over axis 1 of the eigenvalues of the Q tensor of compute_directors(traj, indices): %s" % ([(c[0], c[1][1:] ) for c in ts.calls],))
+    except ShapeError as e_:
+        ctx.violated("C16-R9", no, ORDER, "compute_nematic_order", "largest eigenvalue of Q", "the array operations do not fit: %s" % e_)
+    except (TUnsupported, PUnsupported) as e_:
+        ctx.undecided("C16-R9", no, ORDER, "compute_nematic_order", "largest eigenvalue of Q", "not evaluable: %s" % e_)
+    # ---- R6 density
+    V = traj.unitcell_volumes
+    conv = Rat(Poly.const(__import__("fractions").Fraction("1.6605387823355087")))
+    fn = ctx.py.func(THERMO, "density")
+    cv = [const(n.value) for n in walk_no_nested(fn) if isinstance(n, ast.Assign) and dotted(n.targets[0]) == "conversion"]
+    ctx.decide(bool(cv) and isinstance(cv[0], float) and abs(cv[0] - 1.66053907) < 1e-6, "C16-R6", fn, THERMO, "density", "conversion = 1.660539 (amu/nm^3 -> kg/m^3)", "", "unit conversion constant is %r" % (cv[:1],))
+    cvr = Rat(Poly.const(__import__("fractions").Fraction(str(cv[0])))) if cv and isinstance(cv[0], float) else conv
+    _decide_tensor(ctx, "C16-R6", THERMO, "density", "rho[f] = conversion * sum_a m_a / V[f] (element masses)", {"traj": traj}, _spec((N_F,), lambda f: cvr * M / V.at([f])), funcs=funcs)
+    mu = Ten.sym("mu", (N_A,))
+    _decide_tensor(ctx, "C16-R6", THERMO, "density", "rho[f] = conversion * sum(masses) / V[f] (given masses)", {"traj": traj, "masses": mu}, _spec((N_F,), lambda f: cvr * sum(mu.data, Rat(Poly.const(0))) / V.at([f])), funcs=funcs)
+    # ---- R6 dipole moments: mu[f] = sum_a q_a * (r_a relative to atom 0 through the first atom of its residue, both legs minimum-image)
+    def disp_model(ev_, call):
+        idx = ev_.to_ten(ev_.ex(call.args[1]))
+        per = ev_.kw(call, "periodic", 2, True)
+        tag = "mic" if per is True else "raw"
+        out = []
+        for f in range(N_F):
+            for p in range(idx.shape[0]):
+                i, j = ev_.concrete(idx.at([p, 0])), ev_.concrete(idx.at([p, 1]))
+                for c in range(3):
+                    # compute_displacements returns r[pair[1]] - r[pair[0]] (C05: r12 = pos2 - pos1), minimum-image when periodic
+                    out.append(Rat(Poly.const(0)) if i == j else (sym("%s[%d,%d>%d,%d]" % (tag, f, i, j, c)) if i < j else -sym("%s[%d,%d>%d,%d]" % (tag, f, j, i, c))))
+        return Ten((N_F, idx.shape[0], 3), out)
+    q = Ten.sym("q", (N_A,))
+
+    def leg(f, i, j, c):
+        """minimum-image r_j - r_i"""
+        if i == j:
+            return Rat(Poly.const(0))
+        return sym("mic[%d,%d>%d,%d]" % (f, i, j, c)) if i < j else -sym("mic[%d,%d>%d,%d]" % (f, j, i, c))
+    first = [0, 0, 2, 2]
+    want = _spec((N_F, 3), lambda f, c: sum((q.at([a]) * (leg(f, first[a], a, c) + leg(f, 0, first[a], c)) for a in range(N_A)), Rat(Poly.const(0))))
+    _decide_tensor(ctx, "C16-R6", THERMO, "dipole_moments", "mu[f] = sum_a q_a ((r_a - r_first(a))_mic + (r_first(a) - r_0)_mic)", {"traj": traj, "charges": q}, want, funcs=funcs,
+                   models={"md.compute_displacements": disp_model, "compute_displacements": disp_model})
